@@ -55,6 +55,14 @@ def check(ctx) -> Result:
     for _cn in ['Simulator', 'Sampler', 'QuickSampler', 'Analyzer']:
         n7 += _rf.f7_setters_store_the_object(ctx, res, ctx.ix.cls(_cn))
     res.floor("F7 setter stores", n7, 4)
+    # the four objects agree only if the distribution the Sampler gets from its backend is complete and exact:
+    # the backend / distribution rules of C04 are necessary conditions here too
+    from . import c04 as _c04
+    dep = _c04.check(ctx)
+    for o in dep.obligations:
+        if o.status == "violation" and not o.rule.startswith(("F", "Z")):
+            res.bad("dep:C04:" + o.rule, o.instance, o.site, o.qualname, "backend distribution (what Sampler reports, and Analyzer / Simulator must agree with): " + o.why, construct=o.construct)
+    res.count("dependency_obligations_C04", len(dep.obligations))
     from ..rules import rz_falsy
     nz = rz_falsy.none_checks(ctx, res, "C05", rz_falsy.EMULATOR_EXTRA)
     res.floor("Z functions scanned", nz, 3)
